@@ -26,13 +26,23 @@ RULE = ("per database (posc, simple; nocat for UnitDatabase.Convert) and per qua
         "ConvertScalarToCurrent; containers of length 0-5; int64/int32 ndarrays with magnitudes beyond 2**63/coefficient "
         "from every unit with a coefficient >= 2**31; route SEQUENCES on one Array/FixedArray (a route with a foreign "
         "unit, the caller edits the returned container, further routes with the same / alternating units); the same "
-        "numpy-backed object / caller-owned float64, float32 or int ndarray asked several times (offset units first); plus derived/empty quantities and a malformed stream; "
+        "numpy-backed object / caller-owned float64, float32 or int ndarray asked several times (offset units first); "
+        "ALWAYS every (offset unit x smallest-step / largest-step / base / next offset unit) pair of every type, chosen by the "
+        "shape of the formulas in the regenerated table, through every container route (list, tuple, ndarray, list of tuples, "
+        "tuple of tuples; Array, FixedArray, Quantity.Convert, UnitDatabase.Convert, CreateCopy, the index and manager routes) "
+        "on amounts from one step up to the size of the type's offsets; CreateCopy in every argument form {unit given/not} x "
+        "{category not given / own / another of the same quantity type} x {Scalar, Array, FixedArray} x container kind (+ the "
+        "empty quantity); HISTORIES on one UnitSystemManager (AddUnitSystem, convert with float/int/list/tuple/ndarray, "
+        "SetDefaultUnit / RemoveCategory on the current or another system, SetCurrent to another system / back / None, "
+        "RemoveUnitSystem, the same request again), every step compared; plus derived/empty quantities and a malformed stream; "
         "distinct = distinct model line; non-trivial = succeeded with from-unit != to-unit")
 EXHAUSTIVE = {"quick": False, "thorough": False}
 ASSUMPTIONS = [
     "float results stay within K*eps*M (K=64) of the exact model: checked on every run, not proved",
     "numpy applies the conversion closures element by element (ndarray path modelled as map)",
     "the quantity cache and the unit-validity memo are invisible (C07/C15): ObtainQuantity is modelled cache-free",
+    "a UnitSystemManager is modelled by the part of its state the two routes read (unit systems' mappings, which one is "
+    "current, the null unit system's mapping); template checks, callbacks and registered objects are C17's business",
     "exponent path (_ConvertWithExp, exponent != 1): modelled by the closed form sign(v)*k^e*|v| for offset-free "
     "units only; units with an offset (irrational intermediate root) and ndarray values are outside the model "
     "and are skipped by the correspondence of that one route",
@@ -148,7 +158,24 @@ def model_line(c):
         o["use_value_unit"] = bool(t["use_value_unit"])
     if op in ("convert_to_current", "convert_scalar_to_current") and t.get("mapping") is not None:
         o["mapping"] = [[_s(a), _s(b)] for a, b in t["mapping"]]
+    if op == "mgr_history":
+        o["ops"] = [_enc_mgr_op(a) for a in t["ops"]]
     return o
+
+
+def _enc_mgr_op(a):
+    k = a["k"]
+    if k == "add":
+        return dict(k=k, id=_s(a["id"]), mapping=[[_s(c), _s(u)] for c, u in a["mapping"]])
+    if k in ("remove", "set_current"):
+        return dict(k=k, id=_s(a["id"]))
+    if k == "set_default_unit":
+        return dict(k=k, on=_s(a["on"]), c=_s(a["c"]), u=_s(a["u"]))
+    if k == "remove_category":
+        return dict(k=k, on=_s(a["on"]), c=_s(a["c"]))
+    if k == "convert":
+        return dict(k=k, c=_s(a["c"]), u=_s(a["u"]), val=_enc_val(a["val"]))
+    return dict(k=k, q=_enc_q(a["q"]), x=_n(a["x"]))
 
 
 def case_key(c):
@@ -237,6 +264,44 @@ def _mk_manager(mapping):
 
 class _Owner:
     pass
+
+
+def _mgr_step(m, a, db):
+    """one call of a manager history on the real manager `m`; state-changing calls answer with the mapping now current"""
+    k = a["k"]
+    extra = () if a.get("nodb") else (db,)      # without the argument the (pushed) singleton is used: the same database
+    if k == "convert":
+        return m.ConvertToCurrent(a["c"], a["u"], _mk_val(a["val"]), *extra)
+    if k == "convert_scalar":
+        return m.ConvertScalarToCurrent(_mk_scalar(a["q"], a["x"]), *extra)
+    if k == "add":
+        m.AddUnitSystem(a["id"], a["id"].upper(), dict((c, u) for c, u in a["mapping"]))
+    elif k == "remove":
+        m.RemoveUnitSystem(a["id"])
+    elif k == "set_current":
+        m.SetCurrent(None if a["id"] is None else m.GetUnitSystemById(a["id"]))
+    else:
+        system = m.GetCurrent() if a["on"] is None else m.GetUnitSystemById(a["on"])
+        if k == "set_default_unit":
+            system.SetDefaultUnit(a["c"], a["u"])
+        else:
+            system.RemoveCategory(a["c"])
+    return dict(cur=sorted(m.GetCurrent().GetUnitsMapping().items()))
+
+
+def _run_mgr(t, ctx):
+    """a whole history on ONE new UnitSystemManager; per step ("ok", raw result) or ("err", exception)"""
+    from barril.units.unit_system_manager import UnitSystemManager
+    db = ctx.dbs[t["db"]]
+    outs = []
+    with _Pushed(db):
+        m = UnitSystemManager()
+        for a in t["ops"]:
+            try:
+                outs.append(("ok", a["k"], _mgr_step(m, a, db)))
+            except Exception as e:
+                outs.append(("err", a["k"], e))
+    return outs
 
 
 _NUM = (int, float, np.floating, np.integer)
@@ -382,6 +447,8 @@ def _run(c, ctx):
             return _mk_manager(t.get("mapping")).ConvertToCurrent(t["c"], t["u"], _mk_val(t["val"]), db)
         if op == "convert_scalar_to_current":
             return _mk_manager(t.get("mapping")).ConvertScalarToCurrent(_mk_scalar(t["q"], t["x"]), db)
+        if op == "mgr_history":
+            return _run_mgr(t, ctx)
     raise ValueError("unknown op %s" % op)
 
 
@@ -401,6 +468,18 @@ def _canon(c, r):
         return dict(dim=r.dimension, cat=r.GetCategory(), qtype=r.GetQuantityType(), unit=r.GetUnit(), val=_cv(r.GetValues()))
     if op == "convert_to_current":
         return dict(val=_cv(r[0]), unit=r[1])
+    if op == "mgr_history":
+        out = []
+        for tag, k, x in r:
+            if tag == "err":
+                out.append(dict(err=err_kind(x)))
+            elif k == "convert":
+                out.append(dict(ok=dict(val=_cv(x[0]), unit=x[1])))
+            elif k == "convert_scalar":
+                out.append(dict(ok=_cs(x)))
+            else:
+                out.append(dict(ok=dict(cur=[[a, b] for a, b in x["cur"]])))
+        return out
     raise ValueError(op)
 
 
@@ -520,6 +599,28 @@ def agree(c, io, mo, ctx):
         if str(sym(i["unit"])) != m["unit"]:
             return "target unit differs"
         return _val_agree(i["val"], m["val"])
+    if op == "mgr_history":
+        if len(i) != len(m):
+            return "history lengths differ"
+        for n, (a, b, st) in enumerate(zip(i, m, c["_t"]["ops"])):
+            where = "step %d (%s): " % (n + 1, st["k"])
+            if "err" in a or "err" in b:
+                if a.get("err") != b.get("err"):
+                    return where + "one side fails / error kinds differ: impl=%s model=%s" % (str(a)[:120], str(b)[:120])
+                continue
+            a, b = a["ok"], b["ok"]
+            if st["k"] == "convert":
+                if str(sym(a["unit"])) != b["unit"]:
+                    return where + "target unit differs: impl %r" % (a["unit"],)
+                w = _val_agree(a["val"], b["val"])
+            elif st["k"] == "convert_scalar":
+                w = _scalar_agree(a, b)
+            else:
+                w = None if sorted((str(sym(x)), str(sym(y))) for x, y in a["cur"]) == sorted((x, y) for x, y in b["cur"]) \
+                    else "current units mapping differs: impl %s" % (a["cur"],)
+            if w:
+                return where + w
+        return None
     return "unknown op"
 
 
@@ -614,8 +715,9 @@ ROUTES = ("scalar_getvalue", "q_convert_scalar", "q_convert", "db_convert", "db_
           "changing_index", "convert_to_current", "convert_scalar_to_current")
 
 
-def _route_cases(ctx, kind, qt, c, u, v, rng, routes):
-    """the cases of the listed routes for one (database, type, category, from-unit, to-unit)"""
+def _route_cases(ctx, kind, qt, c, u, v, rng, routes, force=None):
+    """the cases of the listed routes for one (database, type, category, from-unit, to-unit); `force` = the numbers to
+    use (the unit-shape stream chooses the magnitudes itself)"""
     db = ctx.dbs[kind]
     cats = ctx.cats_of_type[kind].get(qt, [])
     c2 = rng.choice(cats) if cats else None
@@ -623,6 +725,8 @@ def _route_cases(ctx, kind, qt, c, u, v, rng, routes):
     L = rng.randrange(0, 6)
     xs = _values(db, qt, u, rng, L)
     x = _values(db, qt, u, rng, 1)[0]
+    if force:
+        xs, x, L = list(force), rng.choice(force), len(force)
     fk = rng.choice(("list", "tuple", "nd"))
     for r in routes:
         if r == "db_convert":
@@ -653,12 +757,25 @@ def _route_cases(ctx, kind, qt, c, u, v, rng, routes):
         elif r == "q_convert":
             yield _case(r, db=kind, q=q, val=dict(k="num", x=x), to=v, _nt=nt)
             yield _case(r, db=kind, q=q, val=_flat(fk, xs), to=v, _nt=nt)
+            if force:
+                for k in ("list", "tuple", "nd"):
+                    if k != fk:
+                        yield _case(r, db=kind, q=q, val=_flat(k, xs), to=v, _nt=nt)
         elif r == "array_getvalues":
             for k in ("list", "tuple", "nd"):
                 yield _case(r, db=kind, q=q, val=_flat(k, xs), unit=v, _nt=nt)
+                if force and len(xs) >= 2:
+                    yield _case(r, db=kind, q=q, dim=len(xs), val=_flat(k, xs), unit=v, _nt=nt)
         elif r == "array_tuples":
             n_out = rng.randrange(1, 4)
             xss = [_values(db, qt, u, rng, rng.randrange(0, 4)) for _ in range(n_out)]
+            if force:
+                xss = [list(force[:2]), list(force[2:])]
+                yield _case("array_getvalues", db=kind, q=q, val=_nested("tuple", xss), unit=v, _nt=nt)
+                yield _case("array_create_copy", db=kind, q=q, val=_nested("list", xss), unit=v, category=None, _nt=nt)
+                yield _case("array_getvalues", db=kind, q=q, dim=2, val=_nested("list", [list(force[:2]), list(force[1:3])]), unit=v, _nt=nt)
+                yield _case("array_getvalues", db=kind, q=q, val=_nested("list", xss), unit=v, _nt=nt)
+                continue
             yield _case("array_getvalues", db=kind, q=q, val=_nested(rng.choice(("list", "tuple")), xss), unit=v, _nt=nt)
         elif r == "create_copy":
             yield _case(r, db=kind, q=q, x=x, value=None, unit=v, category=None, _nt=nt)
@@ -671,6 +788,12 @@ def _route_cases(ctx, kind, qt, c, u, v, rng, routes):
                 yield _case(r, db=kind, q=q, x=x, value=None, unit=None, category=None, _nt=False)
         elif r == "array_create_copy":
             yield _case(r, db=kind, q=q, val=_flat(fk, xs), unit=v, category=None, _nt=nt)
+            if force:
+                for k in ("list", "tuple", "nd"):
+                    if k != fk:
+                        yield _case(r, db=kind, q=q, val=_flat(k, xs), unit=v, category=None, _nt=nt)
+                if len(xs) >= 2:
+                    yield _case(r, db=kind, q=q, dim=len(xs), val=_flat(fk, xs), unit=v, category=None, _nt=nt)
         elif r == "default_scalar":
             yield _case(r, db=kind, c=c, unit=v, _nt=True)
             if rng.random() < 0.3:
@@ -690,6 +813,8 @@ def _route_cases(ctx, kind, qt, c, u, v, rng, routes):
         elif r == "index_as_scalar":
             n = rng.randrange(2, 6)
             ys = _values(db, qt, u, rng, n)
+            if force and len(force) >= 2:
+                n, ys = len(force), list(force)
             idx = rng.randrange(-n, n)
             yield _case(r, db=kind, dim=n, q=q, val=_flat(fk, ys), index=idx, quantity=_sq(c2, v), _nt=nt)
             if rng.random() < 0.2:
@@ -697,6 +822,8 @@ def _route_cases(ctx, kind, qt, c, u, v, rng, routes):
         elif r == "changing_index":
             n = rng.randrange(2, 6)
             ys = _values(db, qt, u, rng, n)
+            if force and len(force) >= 2:
+                n, ys = len(force), list(force)
             idx = rng.randrange(-n, n)
             z = rng.random()
             if z < 0.5:
@@ -708,6 +835,10 @@ def _route_cases(ctx, kind, qt, c, u, v, rng, routes):
             yield _case(r, db=kind, dim=n, q=q, val=_flat(fk, ys), index=idx, nv=nv, use_value_unit=rng.random() < 0.75, _nt=nt)
         elif r == "convert_to_current":
             val = rng.choice([dict(k="num", x=x), _flat(rng.choice(("list", "tuple")), xs)])
+            if force:
+                for val2 in (dict(k="num", x=x), _flat("list", xs), _flat("tuple", xs), _flat("nd", [float(y) for y in xs])):
+                    yield _case(r, db=kind, mapping=[[c, v]], c=c, u=u, val=val2, _nt=nt)
+                continue
             mapping = rng.choice([[[c, v]], ([[c, v], [c2, u]] if c2 != c else [[c, v]]), [[c2 + "_x", v]], None])
             yield _case(r, db=kind, mapping=mapping, c=c, u=u, val=val, _nt=nt)
         elif r == "convert_scalar_to_current":
@@ -998,6 +1129,237 @@ def _same_container_stream(ctx, salt, n):
                             quantity=_sq(rng.choice(cats), last), pre=pre, _nt=True)
 
 
+def _unit_shapes(ctx, kind, qt):
+    """the units of one quantity type by the SHAPE of their formulas (read from the regenerated table): the units with an
+    offset, and the units with the smallest / largest step (|d base / d unit|) among the plain scalings"""
+    db = ctx.dbs[kind]
+    here = {i.unit for i in db.quantity_types[qt]}
+    offs, steps = [], {}
+    for r in ctx.data[kind]["units"]:
+        if r["qtype"] != qt or r["sym"] not in here or not r.get("ok", True):
+            continue
+        p, q, rr, s_ = r["tobase"]
+        if r["sym"] in ctx.affine[kind]:
+            offs.append(r["sym"])
+        elif s_ == 0 and rr != 0 and q != 0:
+            steps[r["sym"]] = abs(q / rr)
+    offs.sort()
+    names = sorted(steps)
+    small = min(names, key=lambda u: (steps[u], u)) if names else None
+    large = max(names, key=lambda u: (steps[u], u)) if names else None
+    return offs, small, large, steps
+
+
+def _shape_pairs(ctx, kind, qt):
+    """every (offset unit x smallest-step / largest-step / base unit) pair in both directions and every offset unit
+    paired with the next offset unit (degC/degF/K, gauge/gauge): deterministic, always all of them"""
+    db = ctx.dbs[kind]
+    offs, small, large, _steps = _unit_shapes(ctx, kind, qt)
+    base = db.quantity_types[qt][0].unit
+    pairs = []
+    for k, o in enumerate(offs):
+        for w in (small, large, base, offs[(k + 1) % len(offs)]):
+            if w is not None and w != o:
+                pairs += [(w, o), (o, w)]
+    if small is not None and large is not None and small != large and offs:
+        pairs += [(small, large), (large, small)]
+    out, seen = [], set()
+    for pr in pairs:
+        if pr not in seen:
+            seen.add(pr)
+            out.append(pr)
+    return out
+
+
+def _magnitudes(ctx, kind, qt, u, rng, n):
+    """numbers in unit `u` of several magnitudes: from one step of `u` up to amounts of the size of the offsets of the
+    type (so that a tiny-step unit is driven with 1e12, 1e17, ...) - a conversion that loses the amount next to the
+    target's offset shows only on the large ones"""
+    _offs, _s, _l, steps = _unit_shapes(ctx, kind, qt)
+    step = float(steps.get(u, 1.0)) or 1.0
+    offsets = [abs(float(r["tobase"][0] / r["tobase"][2])) for r in ctx.data[kind]["units"]
+               if r["qtype"] == qt and r["tobase"][2] != 0 and r["tobase"][0] != 0]
+    top = max(offsets + [1.0])
+    amounts = [top * 10.0 ** k for k in (-6, -3, -1, 0, 1, 3)] + [1.0, 1e3]
+    out = []
+    for _ in range(n):
+        a = rng.choice(amounts) * rng.uniform(1.0, 9.9) * rng.choice((1, 1, -1))
+        x = a / step
+        out.append(float(x) if math.isfinite(x) and abs(x) < 1e300 else 1.0)
+    return out
+
+
+SHAPE_ROUTES = ("scalar_getvalue", "q_convert_scalar", "q_convert", "db_convert", "array_getvalues", "array_tuples",
+                "create_copy", "array_create_copy", "change_scalars", "index_as_scalar", "changing_index",
+                "convert_to_current", "convert_scalar_to_current")
+
+
+def _shape_stream(ctx, salt, sets):
+    """EVERY container route on every (offset unit x smallest/largest-step unit) pair of every quantity type, numbers of
+    several magnitudes (seeded defect class: a route that re-derives the straight line from f(0), f(1) loses the
+    amount next to the target's offset: pPa -> bar(g))"""
+    rng = ctx.fresh_rng("C02shape" + salt)
+    n_pairs = 0
+    for kind in KINDS:
+        db = ctx.dbs[kind]
+        for qt in db.quantity_types:
+            pairs = _shape_pairs(ctx, kind, qt)
+            if not pairs:
+                continue
+            cats = ctx.cats_of_type[kind].get(qt, [])
+            for (u, v) in pairs:
+                n_pairs += 1
+                for _k in range(sets):
+                    c = rng.choice(cats) if cats else None
+                    force = _magnitudes(ctx, kind, qt, u, rng, 4)
+                    routes = SHAPE_ROUTES if kind != "nocat" else ("db_convert",)
+                    yield from _route_cases(ctx, kind, qt, c, u, v, rng, routes, force=force)
+    ctx.notes["unit_shape_pairs_every_route"] = n_pairs
+
+
+def _copy_stream(ctx, salt, pairs_per_type, max_other):
+    """CreateCopy in every argument form: {unit given / not} x {category not given / the object's own / another
+    category of the same quantity type} x {Scalar, Array, FixedArray} x container kind (float, list, tuple, ndarray,
+    list of tuples, tuple of tuples), value omitted (and, for Scalar, given)"""
+    rng = ctx.fresh_rng("C02copy" + salt)
+    forms = {}
+    for kind in ("posc", "simple"):
+        db = ctx.dbs[kind]
+        for qt in db.quantity_types:
+            cats = ctx.cats_of_type[kind].get(qt, [])
+            units = [i.unit for i in db.quantity_types[qt]]
+            if not cats:
+                continue
+            shaped = _shape_pairs(ctx, kind, qt)
+            for j in range(pairs_per_type):
+                if shaped and j == 0:
+                    u, v = rng.choice(shaped)
+                else:
+                    u = rng.choice(units)
+                    v = rng.choice([w for w in units if w != u] or [u])
+                own = rng.choice(cats)
+                others = [c for c in cats if c != own]
+                rng.shuffle(others)
+                cat_forms = [("none", None), ("own", own)] + [("other", c) for c in others[:max_other]]
+                nt = u != v
+                q = _sq(own, u)
+                L = rng.randrange(2, 5)
+                xs = [float(y) for y in (_magnitudes(ctx, kind, qt, u, rng, L) if shaped and j == 0 else _values(db, qt, u, rng, L, ints=False))]
+                x = xs[0]
+                for cname, c2 in cat_forms:
+                    for unit in (v, None):
+                        forms[(cname, unit is not None)] = forms.get((cname, unit is not None), 0) + 1
+                        tr = nt and unit is not None
+                        yield _case("create_copy", db=kind, q=q, x=x, value=None, unit=unit, category=c2, _nt=tr)
+                        if rng.random() < 0.3:
+                            yield _case("create_copy", db=kind, q=q, x=rng.choice((7, -3, 12)), value=None, unit=unit, category=c2, _nt=tr)
+                        if rng.random() < 0.3:
+                            yield _case("create_copy", db=kind, q=q, x=x, value=float(rng.uniform(-5, 5)), unit=unit, category=c2, _nt=False)
+                        for k in ("list", "tuple", "nd"):
+                            yield _case("array_create_copy", db=kind, q=q, val=_flat(k, xs), unit=unit, category=c2, _nt=tr)
+                            yield _case("array_create_copy", db=kind, q=q, dim=L, val=_flat(k, xs), unit=unit, category=c2, _nt=tr)
+                        for k in ("list", "tuple"):
+                            yield _case("array_create_copy", db=kind, q=q, val=_nested(k, [xs[:1], xs[1:]]), unit=unit, category=c2, _nt=tr)
+                        if rng.random() < 0.3:
+                            yield _case("array_create_copy", db=kind, q=q, val=_flat("nd", _int_items(xs, rng)), unit=unit, category=c2, _nt=tr)
+            # an object with the EMPTY quantity given a unit (and a category): `ObtainQuantity(unit)` branch of CreateCopy
+            empty = dict(k="d", entries=[])
+            u_e = rng.choice(units + ([ctx.legacy_of[kind][w] for w in units if w in ctx.legacy_of[kind]][:1]))
+            yield _case("create_copy", db=kind, q=empty, x=1.5, value=float(rng.uniform(-9, 9)), unit=u_e, category=None, _nt=False)
+            yield _case("create_copy", db=kind, q=empty, x=1.5, value=float(rng.uniform(-9, 9)), unit=u_e, category=rng.choice(cats), _nt=False)
+            if rng.random() < 0.2:
+                yield _case("create_copy", db=kind, q=empty, x=1.5, value=None, unit=rng.choice((u_e, None)), category=rng.choice((None, cats[0])), _nt=False)
+    ctx.notes["create_copy_argument_forms(category,unit_given)"] = {"%s/%s" % (a, "unit" if b else "no-unit"): n for (a, b), n in sorted(forms.items())}
+
+
+def _mgr_stream(ctx, salt, n):
+    """short HISTORIES on one UnitSystemManager: AddUnitSystem, ConvertToCurrent / ConvertScalarToCurrent with
+    float / int / list / tuple / ndarray values, SetDefaultUnit / RemoveCategory on the current system (and on a
+    system that is not current), SetCurrent to another system and back / to None, RemoveUnitSystem, the same request
+    again.  Every conversion of the history is compared with the model (a pure function of the mapping then current)."""
+    rng = ctx.fresh_rng("C02mgr" + salt)
+    shapes = {}
+    for _ in range(n):
+        kind = rng.choice(("posc", "posc", "posc", "simple"))
+        db = ctx.dbs[kind]
+        qts = sorted(qt for qt in db.quantity_types if ctx.cats_of_type[kind].get(qt) and len(db.quantity_types[qt]) >= 2)
+        aff = [qt for qt in qts if any(i.unit in ctx.affine[kind] for i in db.quantity_types[qt])]
+        qt = rng.choice(aff) if (aff and rng.random() < 0.3) else rng.choice(qts)
+        units = [i.unit for i in db.quantity_types[qt]]
+        cats = ctx.cats_of_type[kind][qt]
+        c = rng.choice(cats)
+        u = rng.choice(units)
+        foreign = [w for w in units if w != u]
+        w1, w2, w3 = rng.choice(foreign), rng.choice(units), rng.choice(units)
+        if w2 == w1:
+            w2 = rng.choice([w for w in units if w != w1])
+        qt_b = rng.choice(qts)
+        cb, ub = rng.choice(ctx.cats_of_type[kind][qt_b]), rng.choice([i.unit for i in db.quantity_types[qt_b]])
+        x = float(_values(db, qt, u, rng, 1, ints=False)[0])
+        xs = [float(y) for y in _values(db, qt, u, rng, rng.randrange(1, 4), ints=False)]
+
+        def value():
+            z = rng.randrange(7)
+            if z <= 1:
+                return dict(k="num", x=x)
+            if z == 2:
+                return dict(k="num", x=rng.choice((7, -3, 12, 0)))
+            if z == 3:
+                return dict(k="num", x=float(rng.uniform(-100, 100)))
+            return _flat(("list", "tuple", "nd")[z - 4], xs)
+
+        def conv(val=None):
+            return dict(k="convert", c=c, u=u, val=val or value(), nodb=rng.random() < 0.2)
+
+        def conv_s():
+            return dict(k="convert_scalar", q=_sq(c, u), x=rng.choice((x, 7, float(rng.uniform(-50, 50)))), nodb=rng.random() < 0.2)
+
+        m1 = dict([(c, w1)] + ([(cb, ub)] if cb != c and rng.random() < 0.6 else []))
+        ops = [dict(k="add", id="s1", mapping=[[a, b] for a, b in m1.items()])]
+        pattern = rng.choice(("edit", "edit", "edit_scalar", "remove_cat", "switch", "random", "random"))
+        shapes[pattern] = shapes.get(pattern, 0) + 1
+        first = rng.choice((dict(k="num", x=x), dict(k="num", x=x), dict(k="num", x=7), None))
+        if pattern == "edit":
+            ops += [conv(first), dict(k="set_default_unit", on=rng.choice((None, None, "s1")), c=c, u=w2), conv(first), conv_s(), conv()]
+        elif pattern == "edit_scalar":
+            ops += [conv_s(), dict(k="set_default_unit", on=None, c=c, u=w2), conv_s(), conv(first)]
+        elif pattern == "remove_cat":
+            ops += [conv(first), dict(k="remove_category", on=None, c=c), conv(first), conv_s(),
+                    dict(k="set_default_unit", on=None, c=c, u=w2), conv(first)]
+        elif pattern == "switch":
+            ops += [conv(first), dict(k="add", id="s2", mapping=[[c, w3]]), conv(first), dict(k="set_current", id="s2"), conv(first),
+                    dict(k="set_default_unit", on="s1", c=c, u=w2), conv(first), dict(k="set_current", id="s1"), conv(first), conv_s(),
+                    dict(k="set_current", id=None), conv(first), dict(k="set_default_unit", on=None, c=c, u=w3), conv(first)]
+        else:
+            have = ["s1"]
+            for _k in range(rng.randrange(3, 9)):
+                z = rng.randrange(12)
+                if z <= 2:
+                    ops.append(conv(first if rng.random() < 0.5 else None))
+                elif z == 3:
+                    ops.append(conv_s())
+                elif z <= 5:
+                    ops.append(dict(k="set_default_unit", on=rng.choice([None, None] + have), c=rng.choice((c, c, cb)), u=rng.choice(units)))
+                elif z == 6:
+                    ops.append(dict(k="remove_category", on=rng.choice([None] + have), c=rng.choice((c, cb))))
+                elif z == 7:
+                    nid = "s%d" % (len(have) + 1 if rng.random() < 0.85 else 1)      # now and then an id already in use
+                    ops.append(dict(k="add", id=nid, mapping=[[c, rng.choice(units)]]))
+                    if nid not in have:
+                        have.append(nid)
+                elif z == 8:
+                    ops.append(dict(k="set_current", id=rng.choice(have + [None, "nope"])))
+                elif z == 9:
+                    ops.append(dict(k="remove", id=rng.choice(have + ["nope"])))
+                elif z == 10:
+                    ops.append(dict(k="convert", c=cb, u=ub, val=dict(k="num", x=float(rng.uniform(-9, 9)))))
+                else:
+                    ops.append(dict(k="convert", c=c, u=rng.choice((u, "nope", ub)), val=value()))
+            ops.append(conv(first))
+        yield _case("mgr_history", db=kind, ops=ops, _nt=True)
+    ctx.notes["manager_history_patterns"] = dict(sorted(shapes.items()))
+
+
 def cases(ctx):
     quick = ctx.tier == "quick"
     ctx.notes["streams"] = {}
@@ -1005,6 +1367,9 @@ def cases(ctx):
     out = []
     for name, gen in (("main_all_routes", _main_stream(ctx, "corr", 3 if quick else 4, False, None)),
                       ("all_pairs_sampled_routes", iter(()) if quick else _main_stream(ctx, "pairs", 0, True, 4)),
+                      ("unit_shape_pairs_every_route", _shape_stream(ctx, "corr", 2 if quick else 6)),
+                      ("create_copy_every_argument_form", _copy_stream(ctx, "corr", 1 if quick else 4, 2 if quick else 30)),
+                      ("manager_histories", _mgr_stream(ctx, "corr", 1500 if quick else 15000)),
                       ("derived_empty", _derived_stream(ctx, "corr", 150 if quick else 1500)),
                       ("integer_ndarrays", _int_array_stream(ctx, "corr", 4 if quick else 25)),
                       ("route_sequences_on_one_object", _seq_stream(ctx, "corr", 600 if quick else 6000)),
@@ -1040,11 +1405,26 @@ def _ref(db, cq, u, v, x):
     return db.Convert(cq, u, v, float(x))
 
 
+def _mid_f32(db, cq, u, v, x):
+    """single precision only: the intermediate magnitudes of from(to(x)) in the target's unit (the target's offset, the
+    amount and the source's offset scaled by the target's slope).  A float32 ndarray is converted in float32, so the
+    rounding is relative to these, not to the (possibly cancelled) result: Pa(g) -> bar(g) near 0."""
+    try:
+        qt = db.GetCategoryQuantityType(cq) if cq in db.categories_to_quantity_types else cq
+        base = db.GetBaseUnit(qt)
+        o = _ref(db, cq, base, v, 0.0)
+        sl = _ref(db, cq, base, v, 1.0) - o
+        return [o, sl * _ref(db, cq, u, base, x), sl * _ref(db, cq, u, base, 0.0)]
+    except Exception:
+        return []
+
+
 def _near(db, cq, u, v, got, x):
     want = _ref(db, cq, u, v, x)
     if u == v:
         return (None if float(got) == float(x) else dict(got=float(got), want=float(x), note="own unit must return the stored value unchanged")), want
-    tol = _tol(want, _ref(db, cq, u, v, 0.0), x * 0 + (_ref(db, cq, u, v, 1.0) - _ref(db, cq, u, v, 0.0)) * float(x))
+    tol = _tol(want, _ref(db, cq, u, v, 0.0), x * 0 + (_ref(db, cq, u, v, 1.0) - _ref(db, cq, u, v, 0.0)) * float(x),
+               *(_mid_f32(db, cq, u, v, x) if _REL[0] > 1e-9 else []))
     if not abs(float(got) - want) <= tol:
         return dict(got=float(got), want=want, tol=tol), want
     return None, want
@@ -1159,6 +1539,65 @@ def _seq_oracle(c, ctx):
         return dict(clause="a route of a sequence on one object raised for a convertible unit pair", error=repr(e)[:300])
 
 
+def _mgr_oracle(c, ctx):
+    """every conversion of a manager history, at the moment it is made, against the database's float conversion for
+    (given unit, the unit the CURRENT unit system maps the category to at that moment); read from the real manager"""
+    from barril.units import ObtainQuantity
+    from barril.units.unit_system_manager import UnitSystemManager
+    t = c["_t"]
+    db = ctx.dbs[t["db"]]
+
+    def quiet(m, a):
+        try:
+            _mgr_step(m, a, db)
+        except Exception:
+            pass
+
+    with _Pushed(db):
+        m = UnitSystemManager()
+        for n, a in enumerate(t["ops"]):
+            k = a["k"]
+            if k not in ("convert", "convert_scalar"):
+                quiet(m, a)
+                continue
+            where = "step %d of a history on one UnitSystemManager (%s)" % (n + 1, ", ".join(b["k"] for b in t["ops"][:n + 1]))
+            try:
+                if k == "convert":
+                    cat, u, x0 = a["c"], a["u"], None
+                    if any(isinstance(e, list) for e in a["val"].get("es", [])):
+                        raise ValueError("nested")
+                else:
+                    s0 = _mk_scalar(a["q"], a["x"])
+                    if s0.GetQuantity().IsDerived():
+                        raise ValueError("derived")
+                    cat, u, x0 = s0.GetCategory(), s0.GetUnit(), s0.GetValue()
+                v = m.GetCurrent().GetDefaultUnit(cat) or u
+                _ref(db, cat, u, v, 1.0)
+                ObtainQuantity(v, cat)
+            except Exception:
+                quiet(m, a)      # not a convertible pair: outside the property
+                continue
+            try:
+                r = _mgr_step(m, a, db)
+            except Exception as e:
+                return dict(clause=where + ": raised for a convertible unit pair", error=repr(e)[:200])
+            if k == "convert":
+                if r[1] != v:
+                    return dict(clause=where + ": ConvertToCurrent answers in the unit the current system maps the category to",
+                                category=cat, got=r[1], want=v)
+                bad = _check_vals(db, cat, u, v, a["val"], r[0], where + ": ConvertToCurrent = float conversion")
+                if bad:
+                    return dict(bad, category=cat)
+            else:
+                if r.GetCategory() != cat or r.GetQuantityType() != s0.GetQuantityType() or r.GetUnit() != v:
+                    return dict(clause=where + ": ConvertScalarToCurrent keeps category / quantity type and answers in the current unit",
+                                got=(r.GetCategory(), r.GetQuantityType(), r.GetUnit()), want=(cat, s0.GetQuantityType(), v))
+                bad, _w = _near(db, cat, u, v, r.GetValue(), x0)
+                if bad:
+                    return dict(clause=where + ": ConvertScalarToCurrent value = float conversion", category=cat, frm=u, to=v, x=x0, **bad)
+    return None
+
+
 def oracle(c, ctx):
     """C02 on the real code: every route against UnitDatabase.Convert on floats, category/type kept,
     default-in-unit, own unit unchanged.  None = holds or the input is outside the property's scope."""
@@ -1166,6 +1605,11 @@ def oracle(c, ctx):
     db = ctx.dbs[t["db"]]
     from barril.units import ObtainQuantity
     _set_tol(c)
+    if op == "mgr_history":
+        try:
+            return _mgr_oracle(c, ctx)
+        except Exception as e:
+            return dict(clause="a manager history could not be judged", error=repr(e)[:300])
     if t.get("pre"):
         bad = _seq_oracle(c, ctx)
         if bad:
@@ -1312,27 +1756,43 @@ def oracle(c, ctx):
                 return _check_vals(db, cat, own, v, t["val"], r, "%s = float conversion element by element" % op)
             if op in ("create_copy", "array_create_copy"):
                 v = t.get("unit")
-                if t.get("category") is not None or (derived and v is not None):
+                c2 = t.get("category")
+                if derived and (v is not None or c2 is not None):
                     return None
+                want_cat = cat
+                if c2 is not None:
+                    # CreateCopy(unit=..., category=...): the own category or another category of the same quantity
+                    # type; a category without a unit is rejected by the code (outside the property)
+                    if v is None:
+                        return None
+                    try:
+                        if db.GetCategoryInfo(c2).quantity_type != qtype:
+                            return None
+                    except Exception:
+                        return None
+                    want_cat = c2
                 if not convertible(v):
                     return None
                 if v is not None:
                     try:
-                        ObtainQuantity(v, cat)
+                        ObtainQuantity(v, want_cat)
                     except Exception:
                         return None
-                if op == "array_create_copy" and any(isinstance(e, list) for e in t["val"].get("es", [])):
+                es = t["val"].get("es", []) if op == "array_create_copy" else []
+                if any(isinstance(e, list) for e in es) and not all(isinstance(e, list) for e in es):
                     return None
                 r = _run(c, ctx)
-                if r.GetCategory() != cat or r.GetQuantityType() != qtype:
-                    return dict(clause="CreateCopy keeps category and quantity type", frm=own, to=v, got=(r.GetCategory(), r.GetQuantityType()),
-                                want=(cat, qtype))
+                if r.GetCategory() != want_cat or r.GetQuantityType() != qtype:
+                    return dict(clause="CreateCopy keeps the quantity type and has the category of its source (or the one given)",
+                                frm=own, to=v, category_given=c2, got=(r.GetCategory(), r.GetQuantityType()), want=(want_cat, qtype))
                 if op == "create_copy":
                     if t.get("value") is not None:
                         return None if float(r.GetValue()) == float(t["value"]) else dict(clause="CreateCopy(value=…) stores the value")
                     bad, _w = _near(db, cat, own, r.GetUnit(), r.GetValue(), t["x"])
-                    return dict(clause="CreateCopy(unit=…) value = float conversion", category=cat, frm=own, to=r.GetUnit(), x=t["x"], **bad) if bad else None
-                return _check_vals(db, cat, own, r.GetUnit(), t["val"], r.GetValues(), "Array.CreateCopy(unit=…) = float conversion")
+                    return dict(clause="CreateCopy(unit=…%s) value = float conversion" % (", category=…" if c2 else ""), category=cat,
+                                category_given=c2, frm=own, to=r.GetUnit(), x=t["x"], **bad) if bad else None
+                return _check_vals(db, cat, own, r.GetUnit(), t["val"], r.GetValues(),
+                                   "Array.CreateCopy(unit=…%s) = float conversion" % (", category=…" if c2 else ""))
             if op == "convert_scalar_to_current":
                 mp = dict((a, b) for a, b in (t.get("mapping") or []))
                 v = mp.get(cat) or own
@@ -1424,6 +1884,9 @@ def oracle(c, ctx):
 def search(ctx):
     quick = ctx.tier == "quick"
     yield from _main_stream(ctx, "search", 2 if quick else 4, False, None)
+    yield from _shape_stream(ctx, "search", 2)
+    yield from _copy_stream(ctx, "search", 2, 3)
+    yield from _mgr_stream(ctx, "search", 1500)
     yield from _same_container_stream(ctx, "search", 400)
     yield from _seq_stream(ctx, "search", 400)
     yield from _int_array_stream(ctx, "search", 6)
